@@ -372,6 +372,7 @@ package wallet
 //
 //@ func (*SingleAddressWallet).FundTransaction props C07
 //@   nopanic
+//@   ensures [atomic] called("lockUTXOs") ==> calledBefore("Lock", "selectUTXOs") && calledBefore("lockUTXOs", "Unlock")
 //@   requires sw != nil && sw.cm != nil && sw.store != nil && sw.locked != nil && txn != nil
 //@   requires [config] sw.cfg.MaxDefragUTXOs >= 0
 //@   loop "range selected"
@@ -393,6 +394,7 @@ package wallet
 //
 //@ func (*SingleAddressWallet).FundV2Transaction props C07
 //@   nopanic
+//@   ensures [atomic] called("lockUTXOs") ==> calledBefore("Lock", "selectUTXOs") && calledBefore("lockUTXOs", "Unlock")
 //@   requires sw != nil && sw.cm != nil && sw.store != nil && sw.locked != nil && txn != nil
 //@   requires [config] sw.cfg.MaxDefragUTXOs >= 0
 //@   loop "range selected"
@@ -550,3 +552,31 @@ package wallet
 //@   ensures [revert-error] called("revertChainUpdate") && callres("revertChainUpdate") != nil ==> result != nil && !mayHaveCalled("applyChainUpdate")
 //@   ensures [apply-error] called("applyChainUpdate") && callres("applyChainUpdate") != nil ==> result != nil
 //
+//
+// Atomicity of selection and reservation (C07): in every funding entry point the wallet mutex is
+// taken before the store and the pool are read and is not released before the selected outputs
+// are reserved; a request that fails reserves nothing.
+//@ iface ChainManager.V2TransactionSet
+//@   assigns nothing
+//@ iface ChainManager.RecommendedFee
+//@   assigns nothing
+//@ func (*SingleAddressWallet).BroadcastV2TransactionSet
+//@   assigns nothing
+//@ func (*SingleAddressWallet).RecommendedFee
+//@   assigns nothing
+//@ func (*SingleAddressWallet).SpendPolicy
+//@   assigns nothing
+//@ func (*SingleAddressWallet).SignHash
+//@   assigns nothing
+//@ extern (consensus.State).InputSigHash pure
+//@ extern (types.Currency).Div64 pure
+//@ extern wallet.SumOutputs pure
+//@ func (*SingleAddressWallet).SplitUTXO props C07
+//@   requires sw != nil && sw.cm != nil && sw.store != nil && sw.locked != nil
+//@   ensures [atomic] called("lockUTXOs") ==> calledBefore("Lock", "UnspentSiacoinElements") && calledBefore("lockUTXOs", "Unlock")
+//@   ensures [reserved-after-broadcast] called("lockUTXOs") ==> called("BroadcastV2TransactionSet") && callres("BroadcastV2TransactionSet") == nil && result1 == nil
+//@   ensures [failed] result1 != nil ==> !called("lockUTXOs")
+//@ func (*SingleAddressWallet).Redistribute props C07
+//@   requires sw != nil && sw.cm != nil && sw.store != nil && sw.locked != nil
+//@   ensures [atomic] called("lockUTXOs") ==> calledBefore("Lock", "UnspentSiacoinElements") && calledBefore("lockUTXOs", "Unlock")
+//@   ensures [failed] result3 != nil ==> !called("lockUTXOs")
